@@ -33,6 +33,13 @@ import (
 // (CLIENT CACHING YES + GET in OPTIN mode), and is released (then a blocking-tagged command re-uses the pooled
 // connection, BlockingPoolSize 1), closed, or its connection is killed.
 //
+// Variant "both": the dedicated plan with ClientOption.OnInvalidations set as well. handlePush reports every push of a
+// connection to the client-wide callback AND to the hook installed on that connection, so the client-wide callback
+// (attached to the pipeline connection and to the dedicated one) must see the pushes of both connections.
+//
+// DisableCache dimension (all variants): no CLIENT TRACKING in the handshake; the application sends CLIENT TRACKING ON
+// itself (the documented use of SetOnInvalidations). The final nil is due exactly as with the built-in cache.
+//
 // Oracle: callback arguments of a connection == invalidate pushes in the server's log for that connection (keys in
 // wire order, nil for the null invalidation) + exactly one nil when the connection is lost while the callback is
 // installed. Pushes sent in the same virtual microsecond in which the connection was opened (the handshake reads
@@ -40,7 +47,7 @@ import (
 
 type c27Op struct {
 	AtUs int      `json:"at_us"` // relative to the phase start
-	Kind string   `json:"kind"`  // cache multicache dread
+	Kind string   `json:"kind"`  // cache multicache (main client reads) dread (dedicated read) track (CLIENT TRACKING ON through the main client, DisableCache plans)
 	Keys []string `json:"keys"`
 }
 
@@ -49,6 +56,7 @@ type c27Ext struct {
 	Kind string   `json:"kind"` // set del flush setpx pushmulti
 	Keys []string `json:"keys,omitempty"`
 	PxMs int      `json:"px_ms,omitempty"`
+	Main bool     `json:"main,omitempty"` // pushmulti in a plan with both callbacks: frame goes to the pipeline connection instead of the dedicated one
 }
 
 type c27Phase struct {
@@ -61,6 +69,8 @@ type c27Phase struct {
 type c27Plan struct {
 	Mode      string     `json:"mode"` // optin optout bcast
 	Dedicated bool       `json:"dedicated"`
+	Both      bool       `json:"both,omitempty"`     // dedicated plan that ALSO sets ClientOption.OnInvalidations: two callbacks
+	NoCache   bool       `json:"no_cache,omitempty"` // DisableCache: the application sends CLIENT TRACKING ON itself
 	Lats      []int      `json:"lats_us"`
 	Phases    []c27Phase `json:"phases"`
 	ReuseUs   int        `json:"reuse_us,omitempty"` // dedicated+release: a blocking-tagged command is issued this long after the release
@@ -87,7 +97,8 @@ type c27PhaseObs struct {
 }
 
 type c27Obs struct {
-	CBs      []c27CB
+	CBs      []c27CB // ClientOption.OnInvalidations
+	HookCBs  []c27CB // SetOnInvalidations
 	Phases   []c27PhaseObs
 	DedConn  int
 	ReuseAt  int64
@@ -134,27 +145,35 @@ func c27Run(t *testing.T, plan c27Plan) (res bubble.Result, o *c27Obs) {
 		if queueLabel() == "ring" {
 			opt.WriteBufferEachConn = 1 << 20
 		}
+		trackOpts := []string{"OPTIN"}
 		switch plan.Mode {
 		case "optout":
-			opt.ClientTrackingOptions = []string{"OPTOUT"}
+			trackOpts = []string{"OPTOUT"}
 		case "bcast":
-			opt.ClientTrackingOptions = []string{"BCAST", "PREFIX", "k"}
+			trackOpts = []string{"BCAST", "PREFIX", "k"}
 		}
-		record := func(ms []rueidis.RedisMessage) {
-			cb := c27CB{At: w.Since(), Nil: ms == nil}
-			for _, m := range ms {
-				s, err := m.ToString()
-				if err != nil {
-					s = "<" + err.Error() + ">"
+		if plan.NoCache {
+			opt.DisableCache = true // no CLIENT TRACKING in the handshake: the application switches it on
+		} else if plan.Mode != "optin" {
+			opt.ClientTrackingOptions = trackOpts
+		}
+		recorder := func(dst *[]c27CB) func(ms []rueidis.RedisMessage) {
+			return func(ms []rueidis.RedisMessage) {
+				cb := c27CB{At: w.Since(), Nil: ms == nil}
+				for _, m := range ms {
+					s, err := m.ToString()
+					if err != nil {
+						s = "<" + err.Error() + ">"
+					}
+					cb.Keys = append(cb.Keys, s)
 				}
-				cb.Keys = append(cb.Keys, s)
+				mu.Lock()
+				*dst = append(*dst, cb)
+				mu.Unlock()
 			}
-			mu.Lock()
-			o.CBs = append(o.CBs, cb)
-			mu.Unlock()
 		}
-		if !plan.Dedicated {
-			opt.OnInvalidations = record
+		if !plan.Dedicated || plan.Both {
+			opt.OnInvalidations = recorder(&o.CBs)
 		}
 		client, err := rueidis.NewClient(opt)
 		if err != nil {
@@ -172,8 +191,8 @@ func c27Run(t *testing.T, plan c27Plan) (res bubble.Result, o *c27Obs) {
 		}
 		var d rueidis.DedicatedClient
 		release := func() {}
-		target := func() int { // connection that gets scenario-made multi-key frames
-			if plan.Dedicated {
+		target := func(main bool) int { // connection that gets scenario-made multi-key frames
+			if plan.Dedicated && !(plan.Both && main) {
 				return o.DedConn
 			}
 			if l := srv.LiveConns(); len(l) > 0 {
@@ -187,8 +206,12 @@ func c27Run(t *testing.T, plan c27Plan) (res bubble.Result, o *c27Obs) {
 			if cs := srv.Conns(); len(cs) == before+1 {
 				o.DedConn = cs[before].ID
 			}
-			d.SetOnInvalidations(record)
+			d.SetOnInvalidations(recorder(&o.HookCBs))
+			if plan.NoCache {
+				d.Do(context.Background(), client.B().Arbitrary("CLIENT", "TRACKING", "ON").Args(trackOpts...).Build())
+			}
 		}
+		caching := func() rueidis.Completed { return client.B().Arbitrary("CLIENT", "CACHING", "YES").Build() }
 		closed := false
 		base := int64(0)
 		for pi, ph := range plan.Phases {
@@ -199,6 +222,24 @@ func c27Run(t *testing.T, plan c27Plan) (res bubble.Result, o *c27Obs) {
 				spawn(func() {
 					sleepUntil(b + int64(op.AtUs))
 					ctx := context.Background()
+					switch {
+					case op.Kind == "track":
+						client.Do(ctx, client.B().Arbitrary("CLIENT", "TRACKING", "ON").Args(trackOpts...).Build())
+						return
+					case plan.NoCache && op.Kind != "dread":
+						// no built-in cache: plain reads; in OPTIN mode the application announces each of them
+						// (stop at the first transport error: nothing may be issued once the phase's connection is gone)
+						for _, k := range op.Keys {
+							if plan.Mode == "optin" {
+								if rs := client.DoMulti(ctx, caching(), client.B().Get().Key(k).Build()); rs[0].NonRedisError() != nil || rs[1].NonRedisError() != nil {
+									return
+								}
+							} else if client.Do(ctx, client.B().Get().Key(k).Build()).NonRedisError() != nil {
+								return
+							}
+						}
+						return
+					}
 					switch op.Kind {
 					case "cache":
 						client.DoCache(ctx, client.B().Get().Key(op.Keys[0]).Cache(), time.Minute)
@@ -210,7 +251,7 @@ func c27Run(t *testing.T, plan c27Plan) (res bubble.Result, o *c27Obs) {
 						client.DoMultiCache(ctx, cts...)
 					case "dread":
 						if plan.Mode == "optin" {
-							d.DoMulti(ctx, client.B().Arbitrary("CLIENT", "CACHING", "YES").Build(), client.B().Get().Key(op.Keys[0]).Build())
+							d.DoMulti(ctx, caching(), client.B().Get().Key(op.Keys[0]).Build())
 						} else {
 							d.Do(ctx, client.B().Get().Key(op.Keys[0]).Build())
 						}
@@ -232,7 +273,7 @@ func c27Run(t *testing.T, plan c27Plan) (res bubble.Result, o *c27Obs) {
 					case "setpx":
 						srv.Do("SET", e.Keys[0], val, "PX", strconv.Itoa(e.PxMs))
 					case "pushmulti":
-						srv.PushInvalidate(target(), e.Keys)
+						srv.PushInvalidate(target(e.Main), e.Keys)
 					}
 				})
 			}
@@ -338,6 +379,51 @@ func c27Match(got []c27CB, pat []c27Exp) bool {
 		return r
 	}
 	return f(0, 0)
+}
+
+// c27Shuffle: got must be an interleaving of the patterns, each with any of its optional elements left out.
+func c27Shuffle(got []c27CB, pats [][]c27Exp) bool {
+	memo := map[string]bool{}
+	idx := make([]int, len(pats))
+	eq := func(g c27CB, e c27Exp) bool {
+		return g.Nil == e.Nil && len(g.Keys) == len(e.Keys) && strings.Join(g.Keys, "\x00") == strings.Join(e.Keys, "\x00")
+	}
+	var f func(i int) bool
+	f = func(i int) bool {
+		key := fmt.Sprint(i, idx)
+		if v, ok := memo[key]; ok {
+			return v
+		}
+		r := false
+		if i == len(got) {
+			r = true
+			for k, p := range pats {
+				for j := idx[k]; j < len(p); j++ {
+					if !p[j].Opt {
+						r = false
+					}
+				}
+			}
+		} else {
+			for k, p := range pats {
+				j := idx[k]
+				if j == len(p) {
+					continue
+				}
+				idx[k]++
+				if (eq(got[i], p[j]) && f(i+1)) || (p[j].Opt && f(i)) {
+					r = true
+				}
+				idx[k]--
+				if r {
+					break
+				}
+			}
+		}
+		memo[key] = r
+		return r
+	}
+	return f(0)
 }
 
 type c27Push struct {
@@ -456,12 +542,67 @@ func c27Check(c *stat.Collector, rt stat.Fataler, plan c27Plan, res bubble.Resul
 			// callback while the connection's reader is still winding down, so the last nil is a same-instant race
 			pat = append(c27Pattern(pushes, openAt, po.EndAt, hi, false), c27Exp{Nil: true, Opt: true, At: po.EndAt})
 		}
-		if !c27Match(o.CBs, pat) {
-			c.Fail(rt, "C27.callbacks-equal-pushes", fmt.Sprintf("SetOnInvalidations callback of the dedicated client (server connection %d, %s at +%dus) was called with %v; the server's pushes on that connection (+ final nil; ?=same-instant race, optional) are %s", o.DedConn, ph.End, po.EndAt, o.CBs, show(pat)), plan)
+		if !c27Match(o.HookCBs, pat) {
+			c.Fail(rt, "C27.callbacks-equal-pushes", fmt.Sprintf("SetOnInvalidations callback of the dedicated client (server connection %d, %s at +%dus) was called with %v; the server's pushes on that connection (+ final nil; ?=same-instant race, optional) are %s", o.DedConn, ph.End, po.EndAt, o.HookCBs, show(pat)), plan)
 		}
 		n := count(pushes, 0, po.EndAt)
 		if ph.End == "kill" && n > 0 {
 			killAfterCB = true
+		}
+		if plan.NoCache && ph.End == "kill" {
+			cl["nocache-final-nil-due"] = true
+		}
+		if plan.Both {
+			// The client-wide callback is attached to EVERY connection of the client (handlePush calls it and the hook):
+			// its argument sequence must be an interleaving of the complete push sequences (+ final nil at the loss) of all
+			// connections the client opened; the callback cannot tell connections apart, so any interleaving is accepted.
+			cl["both-callbacks"] = true
+			var pats [][]c27Exp
+			var desc []string
+			for _, e := range o.Events {
+				if e.Kind != "open" {
+					continue
+				}
+				oa, ca, ps := c27ConnLog(o.Events, e.Conn)
+				// what takes this connection away: the earliest of kill / DedicatedClient.Close (its own connection) / Client.Close
+				lo := inf
+				if ph.End == "kill" && po.EndAt >= oa {
+					lo = po.EndAt
+				}
+				if ph.End == "dclose" && e.Conn == o.DedConn {
+					lo = po.EndAt
+				}
+				if o.CloseAt >= 0 && o.CloseAt < lo {
+					lo = o.CloseAt
+				}
+				hi := inf
+				if ca >= 0 {
+					hi = ca
+				}
+				if hi < lo {
+					lo = hi
+				}
+				pt := c27Pattern(ps, oa, lo, hi, true)
+				pats = append(pats, pt)
+				desc = append(desc, fmt.Sprintf("connection %d: %s", e.Conn, show(pt)))
+				if e.Conn == o.DedConn {
+					for _, x := range pt[:len(pt)-1] {
+						if !x.Opt {
+							cl["both-with-dedicated-push"] = true
+						}
+					}
+				} else {
+					count(ps, 0, lo)
+					for _, x := range pt[:len(pt)-1] {
+						if !x.Opt {
+							cl["both-with-pipeline-push"] = true
+						}
+					}
+				}
+			}
+			if !c27Shuffle(o.CBs, pats) {
+				c.Fail(rt, "C27.callbacks-equal-pushes", fmt.Sprintf("ClientOption.OnInvalidations (attached to every connection; a dedicated client with SetOnInvalidations exists on server connection %d, %s at +%dus) was called with %v; it must be an interleaving of the pushes + final nil of each connection (?=same-instant race, optional): %s", o.DedConn, ph.End, po.EndAt, o.CBs, strings.Join(desc, "; ")), plan)
+			}
 		}
 		// tracking must be off before the pooled connection serves another user command
 		if ph.End == "release" {
@@ -540,7 +681,11 @@ func c27Check(c *stat.Collector, rt stat.Fataler, plan c27Plan, res bubble.Resul
 		if len(plan.Phases) > 1 {
 			cl["reconnect-phases"] = true
 		}
+		if plan.NoCache {
+			cl["nocache-final-nil-due"] = true
+		}
 	}
+	cl["no-cache"] = plan.NoCache
 	cl["pushes>=3"] = nPush >= 3
 	cl["pushes=0"] = nPush == 0
 	cl["flush-push"] = flush
@@ -562,6 +707,8 @@ func genC27Plan(rt *rapid.T) c27Plan {
 	var p c27Plan
 	p.Mode = rapid.SampledFrom([]string{"optin", "optin", "optout", "bcast"}).Draw(rt, "mode")
 	p.Dedicated = rapid.IntRange(0, 2).Draw(rt, "dedicated") == 0
+	p.Both = p.Dedicated && rapid.Bool().Draw(rt, "both")
+	p.NoCache = rapid.IntRange(0, 2).Draw(rt, "noCache") == 0
 	p.Lats = rapid.SliceOfN(rapid.SampledFrom([]int{0, 0, 0, 200, 1000}), 1, 3).Draw(rt, "lats")
 	keys := []string{"k1", "k2", "k3", "x1"}
 	key := func(label string) string { return rapid.SampledFrom(keys).Draw(rt, label) }
@@ -579,11 +726,15 @@ func genC27Plan(rt *rapid.T) c27Plan {
 		} else {
 			ph.End = rapid.SampledFrom([]string{"close", "close", "kill"}).Draw(rt, "lastEnd")
 		}
+		if p.NoCache && (!p.Dedicated || p.Both) {
+			// the application switches tracking on for the pipeline connection itself (again after every reconnect)
+			ph.Ops = append(ph.Ops, c27Op{AtUs: 0, Kind: "track"})
+		}
 		no := rapid.IntRange(1, 8).Draw(rt, "ops")
 		for i := 0; i < no; i++ {
 			op := c27Op{AtUs: at("opAt")}
 			switch {
-			case p.Dedicated:
+			case p.Dedicated && !(p.Both && rapid.IntRange(0, 2).Draw(rt, "mainOp") == 0):
 				op.Kind, op.Keys = "dread", []string{key("opKey")}
 			case rapid.IntRange(0, 3).Draw(rt, "multi") == 0:
 				op.Kind = "multicache"
@@ -615,6 +766,7 @@ func genC27Plan(rt *rapid.T) c27Plan {
 				for k := 0; k < n; k++ {
 					e.Keys = append(e.Keys, key("extKey"))
 				}
+				e.Main = p.Both && rapid.IntRange(0, 2).Draw(rt, "pushMain") == 0
 			}
 			ph.Exts = append(ph.Exts, e)
 		}
@@ -627,7 +779,7 @@ func genC27Plan(rt *rapid.T) c27Plan {
 }
 
 func TestVerif_C27_Invalidations(t *testing.T) {
-	c := stat.For("C27", "invalidations-"+queueLabel()).Rule("timed plans in a synctest bubble, single client, one pipeline connection, tracking mode OPTIN / OPTOUT / BCAST PREFIX k: (a) ClientOption.OnInvalidations with 1-3 phases of 1-8 DoCache/DoMultiCache reads over 4 keys and 0-8 external events {SET, DEL of 1-3 keys, FLUSHALL, SET PX 1-4 ms (active expiry), scenario-made invalidate frame naming 2-3 keys}, server latency before cache fetches, every phase but the last ended by killing the connection (lazy reconnect a virtual ms later), the last by Close or kill+Close; (b) a dedicated client with SetOnInvalidations reading keys (CLIENT CACHING YES + GET in OPTIN) with the same external events, ended by release (then a blocking-tagged command re-uses the pooled connection, pool size 1), kill or Close of the dedicated client; oracle from the server's event log: the callback arguments of each connection equal the invalidate pushes sent on it (keys in wire order, nil for the null invalidation) followed by exactly one nil when the connection is lost while the callback is installed (none after a release), pushes in the same virtual microsecond as the connection's opening / loss / release being optional; after a release CLIENT TRACKING OFF precedes the next user command on that server connection; no hang, Close returns; non-trivial = at least 3 pushes including a flush and a multi-key frame, or a kill with push callbacks before it")
+	c := stat.For("C27", "invalidations-"+queueLabel()).Rule("timed plans in a synctest bubble, single client, one pipeline connection, tracking mode OPTIN / OPTOUT / BCAST PREFIX k: (a) ClientOption.OnInvalidations with 1-3 phases of 1-8 DoCache/DoMultiCache reads over 4 keys and 0-8 external events {SET, DEL of 1-3 keys, FLUSHALL, SET PX 1-4 ms (active expiry), scenario-made invalidate frame naming 2-3 keys}, server latency before cache fetches, every phase but the last ended by killing the connection (lazy reconnect a virtual ms later), the last by Close or kill+Close; (b) a dedicated client with SetOnInvalidations reading keys (CLIENT CACHING YES + GET in OPTIN) with the same external events, ended by release (then a blocking-tagged command re-uses the pooled connection, pool size 1), kill or Close of the dedicated client; (c) half of the dedicated plans ALSO set ClientOption.OnInvalidations (two callbacks; reads through both the client and the dedicated client, multi-key frames on either connection); 1 in 3 plans of every variant use DisableCache and switch tracking on themselves (CLIENT TRACKING ON <mode> through the dedicated client, or through the client at the start of every phase; OPTIN reads are announced with CLIENT CACHING YES); oracle from the server's event log: the callback arguments of each connection equal the invalidate pushes sent on it (keys in wire order, nil for the null invalidation) followed by exactly one nil when the connection is lost while the callback is installed (none after a release), pushes in the same virtual microsecond as the connection's opening / loss / release being optional; with both callbacks the client-wide one must have been called with an interleaving of the complete sequences (pushes + final nil at the loss) of every connection the client opened, the dedicated one included; after a release CLIENT TRACKING OFF precedes the next user command on that server connection; no hang, Close returns; non-trivial = at least 3 pushes including a flush and a multi-key frame, or a kill with push callbacks before it")
 	defer c.Flush()
 	rapid.Check(t, func(rt *rapid.T) {
 		plan := genC27Plan(rt)
@@ -664,7 +816,8 @@ func TestDebug_C27_Replay(t *testing.T) {
 		e.Argv = trunc(e.Argv)
 		t.Log(e.String())
 	}
-	t.Logf("callbacks %v", o.CBs)
+	t.Logf("option callback %v", o.CBs)
+	t.Logf("hook callback %v", o.HookCBs)
 	t.Logf("phases %+v dedconn %d reuse %d close %d/%v finished %v", o.Phases, o.DedConn, o.ReuseAt, o.CloseAt, o.CloseOK, o.Finished)
 	c := stat.For("C27", "replay")
 	c27Check(c, t, plan, res, o)
